@@ -5,11 +5,11 @@ CFG = dict(
     checker="check_case",
     n=dict(quick=140, thorough=6000),
     shard=40,
-    rule="real iptables.Table (legacy backend, table filter) over testutils.MockDataplane: generated starting kernel tables "
+    rule="real iptables.Table (legacy backend 3/4 and BackendMode nft 1/4, table filter) over testutils.MockDataplane: generated starting kernel tables "
          "(foreign chains/rules, stale cali-/felix-/califw- chains, old-hash and old-insert Felix rules and current rules in any "
-         "position of kernel and owned chains, missing kernel chains), histories of 4-18 ops (UpdateChain/RemoveChain with "
+         "position of kernel and owned chains, owned chains with only NON-FINAL rules replaced/swapped/duplicated while length and last rule are kept, missing kernel chains), histories of 4-18 ops (UpdateChain/RemoveChain with "
          "acyclic references and ForceProgramming, InsertOrAppendRules/AppendRules, insert and append mode, timer invalidation, "
-         "out-of-band edits, restarts, Apply with injected save/restore failures and edits racing between save and restore); "
+         "out-of-band edits (incl. inner edits of programmed Felix chains), a converge / inner-edit / timer-invalidate / Apply tail with unchanged wanted state in 3/5 of the cases, restarts, Apply with injected save/restore failures and edits racing between save and restore); "
          "restore executed atomically by MockDataplane's executor (delete-by-value removes all matches) or by a first-match "
          "executor; non-trivial = at least one successful Apply that wrote a restore input and the case has stale/disturbed "
          "Felix state, an out-of-band edit or an injected fault; distinct by (starting kernel, ops)",
@@ -18,7 +18,7 @@ CFG = dict(
              "Go driver harness/C15 (overlay build, tag verif); rule lines and hash strings are interned by the driver; the "
              "driver classifies kernel lines (hash comment / old-insert regex) with the same regular expressions as NewTable",
              "iptables/testutils.MockDataplane as the stand-in for iptables-save/iptables-restore"],
-    assumptions=["iptables-restore --noflush is all-or-nothing (the driver wraps the mock's executor with snapshot/rollback)",
+    assumptions=["iptables-restore --noflush is all-or-nothing (the driver wraps the mock's executor with snapshot/rollback); in nft mode the two transactions of one restore input are one all-or-nothing unit",
                  "no forged hashes: a kernel line that carries the hash of a wanted rule is that rule's rendered text "
                  "(RuleHashes collision-free and nobody edits a rule while keeping Felix's hash comment)",
                  "API discipline: UpdateChain/RemoveChain and jump/goto targets name Felix-owned chains, "
@@ -48,8 +48,9 @@ MANIFEST = dict(
          "from loadDataplaneState's marking to that hypothesis and the API-call part of the history invariant are not "
          "proved; plus a correspondence run of the model and a history-level spec oracle (convergence, foreign untouched, "
          "no rewrite) against the real Table driven through MockDataplane.",
-    note="Trusted: Coq kernel; hand-written model tied to the code only by the correspondence run; Go driver. Not covered: "
-         "nftables backend (felix/nftables/table.go), iptables-nft mode (BackendMode nft), cleanup-only tables, timers "
-         "(enter as explicit invalidate events), chain-reference constraints of --delete-chain. Known finding: "
-         "force-downgrade-refcount-leak (fix patch in fixes/).",
+    note="Trusted: Coq kernel; hand-written model tied to the code only by the correspondence run; Go driver. BackendMode nft is modelled and covered by c15_foreign_untouched and the correspondence/oracle run (its two transactions taken as one atomic unit); "
+         "the convergence / no-rewrite theorems are stated for the legacy backend. Not covered: "
+         "nftables backend (felix/nftables/table.go), cleanup-only tables, timers "
+         "(enter as explicit invalidate events), chain-reference constraints of --delete-chain. Finding force-downgrade-refcount-leak: fixed in /repo (3795ecd); the "
+         "model carries both variants (cf_fix, probed by the driver).",
 )
